@@ -35,9 +35,9 @@ import (
 // =====================================================================================
 
 var c40Pins = map[string]string{
-	"solidity/ecdsa/contracts/EcdsaDkgValidator.sol":          "9e0dbebbc081dbacbe66d881bcda74f842b021b74b6796f71dddb550bbf5f82c",
-	"solidity/ecdsa/contracts/libraries/EcdsaInactivity.sol":  "6f0507533301b0dda299472ae1421ef4ac10c5f5323efce63301a2c67237d5e4",
-	"solidity/ecdsa/contracts/libraries/Wallets.sol":          "428f28e5a8191b0ec7d0f7dd454ac77c49bc2748eb00cba7b6249bd58430fb29",
+	"solidity/ecdsa/contracts/EcdsaDkgValidator.sol":         "9e0dbebbc081dbacbe66d881bcda74f842b021b74b6796f71dddb550bbf5f82c",
+	"solidity/ecdsa/contracts/libraries/EcdsaInactivity.sol": "6f0507533301b0dda299472ae1421ef4ac10c5f5323efce63301a2c67237d5e4",
+	"solidity/ecdsa/contracts/libraries/Wallets.sol":         "428f28e5a8191b0ec7d0f7dd454ac77c49bc2748eb00cba7b6249bd58430fb29",
 }
 
 const (
@@ -383,8 +383,11 @@ func c40RunDKG(r *vrep.R, c c40Case) {
 	case "all":
 		supporters = operating
 	case "gaps51":
-		for i := len(operating) - 1; i >= 0 && len(supporters) < 51; i -= 1 + i%2 {
-			supporters = append(supporters, operating[i])
+		// from the top, skipping every third operating member
+		for i := len(operating) - 1; i >= 0 && len(supporters) < 51; i-- {
+			if i%3 != 0 {
+				supporters = append(supporters, operating[i])
+			}
 		}
 	}
 	fp := "dkg " + c.String()
